@@ -15,6 +15,16 @@ package nsx
 //vc:  ensures[C09] @errorStatusIsError result1 == nil ==> lastHTTPStatus == 200
 //vc:  ensures[C09] devFailure == (old(devFailure) || result1 != nil)
 //vc:  ensures[C09] accepted == ite(result1 == nil, old(accepted) + 1, old(accepted))
+// C17: the error of a rejected request names status, method, path and the
+// reply body - nothing of the request headers (the x-xsrf-token header carries
+// the session token). Trusted: errors of net/http quote method and URL only,
+// replies and paths are secret free.
+//vc:  hypothesis[C17] secretFree(method) && secretFree(path)
+//vc:  assume after "http.NewRequest(" callresult1 != nil ==> cleanAny(callresult1)
+//vc:  assume after "s.client.Do(req)" callresult1 != nil ==> cleanAny(callresult1)
+//vc:  assume after "if body, _ := io.ReadAll(resp.Body)" secretFree(bytes(callresult0))
+//vc:  assume after "return io.ReadAll(resp.Body)" callresult1 != nil ==> cleanAny(callresult1)
+//vc:  ensures[C17] @errorNamesRequestLineAndReplyOnly result1 != nil ==> cleanAny(result1)
 
 //vc:func (*State).ApplyCommands
 //vc:  requires[C11] !isCompareRun
